@@ -525,6 +525,9 @@ func deepSame(a, b reflect.Value) bool {
 		return deepSame(a.Elem(), b.Elem())
 	case reflect.Struct:
 		for i := 0; i < a.NumField(); i++ {
+			if a.Type().Field(i).PkgPath != "" {
+				continue // unexported (harness-internal) field
+			}
 			if !deepSame(a.Field(i), b.Field(i)) {
 				return false
 			}
@@ -552,6 +555,9 @@ func deepSame(a, b reflect.Value) bool {
 		}
 		return true
 	case reflect.Func:
+		return true
+	}
+	if !a.CanInterface() || !b.CanInterface() {
 		return true
 	}
 	return a.Interface() == b.Interface()
